@@ -60,6 +60,8 @@ var targets = []target{
 			"ValidReplayer.shouldGC", "ValidReplayer.doGC", "ValidReplayer.GC", "ValidReplayer.Put", "ValidReplayer.Replay"}, out: "Replay", joins: true},
 	// decoding one event from its wire form
 	{dir: ".", files: []string{"message.go", "message_fields.go"}, funcs: []string{"Message.reset", "Message.UnmarshalText"}, out: "Unmarshal", joins: true},
+	// the interpreter of the event stream: fields in, events out
+	{dir: ".", files: []string{"event.go"}, funcs: []string{"read"}, out: "Event", joins: true},
 }
 
 func die(pos token.Position, format string, a ...any) {
@@ -100,10 +102,21 @@ type tr struct {
 	dicts          []dictParam           // method dictionaries of the current generic function's type parameters
 	inClosure      bool
 	joins          bool
+	closures       map[types.Object]*closureInfo // local function literals bound to a variable
+	effParams      map[*types.Var]bool           // in an iterator: function-typed parameters without results (effects on the consumer's state)
 	breakables     []breakable       // innermost last: what an unlabelled break leaves
 	labels         map[string]*loopCtx // labelled loops
 	pendingLabel   string
 	rebound        map[*types.Var]bool // pointer parameters assigned as a whole: plain inputs, not in/out
+}
+
+// closureInfo: x := func(a A) R { … } inside a translated function: a Lean function of its parameters, of the outer
+// variables it reads (passed at every call: they may have changed since) and of the tuple of outer variables it
+// assigns (its state, handed back)
+type closureInfo struct {
+	lean  string
+	reads []*types.Var
+	state []*types.Var
 }
 
 // breakable: a loop or a switch
@@ -176,6 +189,12 @@ func (t *tr) leanType(ty types.Type, at ast.Node) string {
 		}
 		if u.Obj().Pkg() != nil && u.Obj().Pkg().Path() == "time" && (u.Obj().Name() == "Duration" || u.Obj().Name() == "Time") {
 			return "Int" // a Duration in nanoseconds; a Time as nanoseconds since the zero Time (GoRT: the time assumptions)
+		}
+		if u.Obj().Pkg() != nil && strings.HasSuffix(u.Obj().Pkg().Path(), "internal/parser") && u.Obj().Name() == "Parser" && u.Obj().Pkg() != t.pkg {
+			return "(ParserI Field π)" // the field source of event.go: a state and what Next / Err answer
+		}
+		if u.Obj().Pkg() != nil && u.Obj().Pkg().Path() == "strings" && u.Obj().Name() == "Builder" {
+			return "Bytes"
 		}
 		if u.Obj().Pkg() == t.pkg && u.Obj().Name() == "MessageWriter" {
 			if _, isIface := u.Underlying().(*types.Interface); isIface {
@@ -561,6 +580,14 @@ func (t *tr) expr(e *em, x ast.Expr) string {
 			}
 			return n
 		}
+		if id, ok := v.Y.(*ast.Ident); ok && id.Name == "nil" && (v.Op == token.EQL || v.Op == token.NEQ) {
+			if _, isFn := t.info.Types[v.X].Type.Underlying().(*types.Signature); isFn {
+				if v.Op == token.NEQ {
+					return "(" + t.expr(e, v.X) + ").isSome"
+				}
+				return "(!(" + t.expr(e, v.X) + ").isSome)"
+			}
+		}
 		l, r := t.expr(e, v.X), t.expr(e, v.Y)
 		lt := t.leanType(t.info.Types[v.X].Type, v.X)
 		switch v.Op {
@@ -632,6 +659,9 @@ func (t *tr) expr(e *em, x ast.Expr) string {
 		n, ok := t.info.Types[v].Type.(*types.Named)
 		if !ok {
 			die(t.pos(x), "composite literal of %s", t.info.Types[v].Type)
+		}
+		if n.Obj().Pkg() != nil && n.Obj().Pkg().Path() == "strings" && n.Obj().Name() == "Builder" && len(v.Elts) == 0 {
+			return "([] : Bytes)"
 		}
 		st, ok := n.Underlying().(*types.Struct)
 		if !ok {
@@ -775,6 +805,30 @@ func (t *tr) call(e *em, v *ast.CallExpr) string {
 		e.line("let %s ← %s %s", y, strings.Join(args, " "), t.nameOf(t.accVar))
 		e.line("let %s := %s.2", t.nameOf(t.accVar), y)
 		return y + ".1"
+	}
+	if id, ok := v.Fun.(*ast.Ident); ok {
+		if o, ok := t.info.Uses[id].(*types.Var); ok {
+			if ci := t.closures[o]; ci != nil {
+				return t.closureCall(e, ci, v)
+			}
+			if sg, ok := o.Type().Underlying().(*types.Signature); ok {
+				if t.effParams[o] {
+					fn := t.fresh("fn")
+					e.line("let %s ← derefPtr %s", fn, t.nameOf(o))
+					args := []string{fn}
+					for _, a := range v.Args {
+						args = append(args, t.expr(e, a))
+					}
+					e.line("let %s ← %s %s", t.nameOf(t.accVar), strings.Join(args, " "), t.nameOf(t.accVar))
+					return "()"
+				}
+				if sg.Params().Len() == 0 && sg.Results().Len() == 1 && len(v.Args) == 0 {
+					r := t.fresh("th")
+					e.line("let %s ← %s", r, t.nameOf(o))
+					return r
+				}
+			}
+		}
 	}
 	if r, ok := t.specialMethod(e, v); ok {
 		return r
@@ -1166,6 +1220,40 @@ func (t *tr) specialMethod(e *em, v *ast.CallExpr) (string, bool) {
 			return "(decide (" + x + " < " + t.expr(e, v.Args[0]) + "))", true
 		}
 		die(t.pos(v), "time.Time.%s", sel.Sel.Name)
+	}
+	if n.Obj().Pkg() != nil && n.Obj().Pkg().Path() == "strings" && n.Obj().Name() == "Builder" {
+		x := t.expr(e, sel.X)
+		switch sel.Sel.Name {
+		case "WriteString":
+			t.assignTo(e, sel.X, "("+x+" ++ "+t.expr(e, v.Args[0])+")", false)
+			return "()", true
+		case "WriteByte":
+			t.assignTo(e, sel.X, "("+x+" ++ ["+t.expr(e, v.Args[0])+"])", false)
+			return "()", true
+		case "String":
+			return x, true
+		case "Len":
+			return "(len " + x + ")", true
+		case "Reset":
+			t.assignTo(e, sel.X, "([] : Bytes)", false)
+			return "()", true
+		}
+		die(t.pos(v), "strings.Builder.%s", sel.Sel.Name)
+	}
+	if n.Obj().Pkg() != nil && strings.HasSuffix(n.Obj().Pkg().Path(), "internal/parser") && n.Obj().Name() == "Parser" && n.Obj().Pkg() != t.pkg {
+		p := t.expr(e, sel.X)
+		switch sel.Sel.Name {
+		case "Next":
+			// p.Next(&f): the parser advances, the field is filled in
+			r := t.fresh("nx")
+			e.line("let %s := (%s).next (%s).st %s", r, p, p, t.expr(e, stripAddr(v.Args[0])))
+			t.assignTo(e, stripAddr(v.Args[0]), r+".2.1", false)
+			t.assignTo(e, sel.X, "{ "+p+" with st := "+r+".2.2 }", false)
+			return r + ".1", true
+		case "Err":
+			return "((" + p + ").err (" + p + ").st)", true
+		}
+		die(t.pos(v), "parser.Parser.%s", sel.Sel.Name)
 	}
 	if n.Obj().Pkg() == t.pkg && n.Obj().Name() == "MessageWriter" {
 		w := t.expr(e, sel.X)
@@ -1629,6 +1717,12 @@ func (t *tr) simple(e *em, s ast.Stmt) {
 	switch v := s.(type) {
 	case *ast.AssignStmt:
 		define := v.Tok == token.DEFINE
+		if define && len(v.Lhs) == 1 && len(v.Rhs) == 1 {
+			if lit, ok := v.Rhs[0].(*ast.FuncLit); ok {
+				t.closureDef(e, v.Lhs[0].(*ast.Ident), lit)
+				return
+			}
+		}
 		switch v.Tok {
 		case token.DEFINE, token.ASSIGN:
 			if len(v.Rhs) == 1 && len(v.Lhs) > 1 {
@@ -1793,6 +1887,18 @@ func (t *tr) assigned(n ast.Node) []*types.Var {
 			// yield(…) advances the state threaded through an iterator
 			if id, ok := v.Fun.(*ast.Ident); ok && t.yieldVar != nil && t.info.Uses[id] == types.Object(t.yieldVar) {
 				set[t.accVar] = true
+			}
+			if id, ok := v.Fun.(*ast.Ident); ok {
+				if o, ok := t.info.Uses[id].(*types.Var); ok {
+					if t.effParams[o] {
+						set[t.accVar] = true
+					}
+					if ci := t.closures[o]; ci != nil {
+						for _, sv := range ci.state {
+							set[sv] = true
+						}
+					}
+				}
 			}
 			// a method call on the receiver, or a pointer argument, may change it
 			if sel, ok := v.Fun.(*ast.SelectorExpr); ok {
@@ -2489,6 +2595,8 @@ func (t *tr) function(out *em, fd *ast.FuncDecl, leanName string) {
 	t.yieldVar, t.accVar, t.dicts, t.inClosure = nil, nil, nil, false
 	t.extraTy = map[*types.Var]string{}
 	t.rebound = map[*types.Var]bool{}
+	t.closures = map[types.Object]*closureInfo{}
+	t.effParams = map[*types.Var]bool{}
 	body := fd.Body.List
 
 	// an iterator: func (…) each(…) func(yield func(A, B) bool) { return func(yield …) { body } } is translated as its
@@ -2511,6 +2619,19 @@ func (t *tr) function(out *em, fd *ast.FuncDecl, leanName string) {
 						t.names[t.yieldVar] = "yield"
 						t.used["yield"]++
 						body = lit.Body.List
+						// other function-typed parameters without results (onRetry func(int64)): effects on the consumer's
+						// state, which they thread like yield does; nil is none
+						for i := 0; i < sig.Params().Len(); i++ {
+							pv := sig.Params().At(i)
+							if ps, ok := pv.Type().Underlying().(*types.Signature); ok && ps.Results().Len() == 0 {
+								var ats []string
+								for k := 0; k < ps.Params().Len(); k++ {
+									ats = append(ats, t.leanType(ps.Params().At(k).Type(), fd))
+								}
+								t.extraTy[pv] = "(Option (" + strings.Join(append(ats, "κ"), " → ") + " → GoM κ))"
+								t.effParams[pv] = true
+							}
+						}
 					}
 				}
 			}
@@ -2655,6 +2776,9 @@ func (t *tr) function(out *em, fd *ast.FuncDecl, leanName string) {
 		if strings.Contains(p, "σ") && !strings.Contains(tps, "{σ : Type}") {
 			tps += "{σ : Type} "
 		}
+		if strings.Contains(p, "π") && !strings.Contains(tps, "{π : Type}") {
+			tps += "{π : Type} "
+		}
 	}
 	if iterLit != nil {
 		tps += "{κ : Type} "
@@ -2675,6 +2799,113 @@ func (t *tr) function(out *em, fd *ast.FuncDecl, leanName string) {
 	out.ind--
 	out.line("")
 	t.known[leanName] = true
+}
+
+// closureDef: x := func(a A) R { … }
+func (t *tr) closureDef(e *em, name *ast.Ident, lit *ast.FuncLit) {
+	if t.inClosure {
+		die(t.pos(lit), "a function literal inside a function literal")
+	}
+	obj := t.info.Defs[name]
+	sig := t.info.Types[lit].Type.(*types.Signature)
+	isParam := map[types.Object]bool{}
+	var pnames, ptys []string
+	for _, f := range lit.Type.Params.List {
+		for _, id := range f.Names {
+			o := t.info.Defs[id]
+			isParam[o] = true
+			pnames = append(pnames, t.nameOf(o))
+			ptys = append(ptys, t.varType(o.(*types.Var), lit))
+		}
+	}
+	var state []*types.Var
+	isState := map[*types.Var]bool{}
+	for _, c := range t.assigned(lit.Body) {
+		if !isParam[c] {
+			state = append(state, c)
+			isState[c] = true
+		}
+	}
+	var reads []*types.Var
+	for _, fv := range t.freeVars(lit.Body, lit.Body) {
+		if isParam[fv] || isState[fv] || fv == t.yieldVar || t.effParams[fv] {
+			continue
+		}
+		if _, isFn := fv.Type().Underlying().(*types.Signature); isFn {
+			continue // function values are not reassigned: visible as they are
+		}
+		reads = append(reads, fv)
+	}
+	ci := &closureInfo{lean: t.nameOf(obj) + "_fn", reads: reads, state: state}
+	var rn, rt, sn, st []string
+	for _, r := range reads {
+		rn = append(rn, t.nameOf(r))
+		rt = append(rt, t.varType(r, lit))
+	}
+	for _, c := range state {
+		sn = append(sn, t.nameOf(c))
+		st = append(st, t.varType(c, lit))
+	}
+	kappa := "Unit"
+	if len(st) > 0 {
+		kappa = strings.Join(st, " × ")
+	}
+	var rts []string
+	for i := 0; i < sig.Results().Len(); i++ {
+		rts = append(rts, t.leanType(sig.Results().At(i).Type(), lit))
+	}
+	res := "Unit"
+	if len(rts) > 0 {
+		res = strings.Join(rts, " × ")
+	}
+	stv := t.fresh("cst")
+	tys := append(append([]string{}, ptys...), rt...)
+	tys = append(tys, "("+kappa+")")
+	fty := fmt.Sprintf("(%s → GoM ((%s) × (%s)))", strings.Join(tys, " → "), res, kappa)
+	// (loops and join points that call it take it as one of the variables they use)
+	t.names[obj] = ci.lean
+	t.extraTy[obj.(*types.Var)] = fty
+	e.line("let %s : %s := fun %s %s => do", ci.lean, fty,
+		strings.Join(append(append([]string{}, pnames...), rn...), " "), stv)
+	saveRes, saveIO, saveRecv := t.results, t.inouts, t.recv
+	t.results = nil
+	for i := 0; i < sig.Results().Len(); i++ {
+		t.results = append(t.results, types.NewVar(token.NoPos, t.pkg, "", sig.Results().At(i).Type()))
+	}
+	t.inouts, t.recv, t.inClosure = state, nil, true
+	sub := &em{ind: e.ind + 2}
+	for i, n := range sn {
+		sub.line("let %s := %s", n, tupleProj(stv, i, len(sn)))
+	}
+	t.stmts(sub, lit.Body.List, &kont{fin: true}, nil)
+	e.sb.WriteString(sub.sb.String())
+	t.results, t.inouts, t.recv, t.inClosure = saveRes, saveIO, saveRecv, false
+	t.closures[obj] = ci
+}
+
+// closureCall: x(args…) of a local function literal
+func (t *tr) closureCall(e *em, ci *closureInfo, v *ast.CallExpr) string {
+	args := []string{ci.lean}
+	for _, a := range v.Args {
+		args = append(args, t.expr(e, a))
+	}
+	for _, r := range ci.reads {
+		args = append(args, t.nameOf(r))
+	}
+	var sn []string
+	for _, c := range ci.state {
+		sn = append(sn, t.nameOf(c))
+	}
+	init := "()"
+	if len(sn) > 0 {
+		init = t.tuple(sn)
+	}
+	r := t.fresh("cl")
+	e.line("let %s ← %s %s", r, strings.Join(args, " "), init)
+	for i, c := range ci.state {
+		e.line("let %s : %s := %s", t.nameOf(c), t.varType(c, v), tupleProj("("+r+".2)", i, len(ci.state)))
+	}
+	return r + ".1"
 }
 
 // iterCall: q.each(a)(func(j int, m T) bool { … }) — the literal becomes a function of its parameters and of the
